@@ -15,7 +15,7 @@ import (
 func RaceWorker(c *evid.Ctx) {
 	var items []racepass.Item
 	for _, s := range scenarios(false) {
-		items = append(items, racepass.Item{Name: s.String(), Sc: s.scenario(), Cfg: dfs.Config{Preemptions: 1, Faults: 0, StepCap: 6000, MaxExec: 20000}})
+		items = append(items, racepass.Item{Name: s.String(), Sc: s.scenario(), Cfg: dfs.Config{Preemptions: 1, Faults: 0, StepCap: 6000, MaxExec: 3000}})
 	}
 	found := racepass.Worker(c, items)
 	var keys []string
